@@ -26,7 +26,11 @@ PARTIAL = ["conservation is decided per run by the dense oracle; proved are the 
            "twoSite_final_centre, two_node_trace, two_node_exact, Ptn.C05.twoSite_edge_total / twoSite_site_total / "
            "twoSite_sum), the kept-count bounds (kept_bounded, kept_unbounded) and the abstract flow algebra "
            "(two_half_steps_are_full_step, two_site_update_conserves_norm for an isometric embedding, Ptn.C06.runFlow_*); "
-           "that the library's updates are such flows is not proved",
+           "that the library's updates are such flows is not proved; value level: "
+           "Ptn.C07.two_site_update_conserves_norm_of_canonical discharges the isometry hypothesis from canonical form "
+           "(index-form isometry condition on every node outside the updated pair, Ptn.Ein.Kids.Canon); that the state "
+           "held by the algorithm is in that form is validated after the last step of every case (index form on every "
+           "node 1e-10, einsum environment of the centre = identity; zero-padded bonds: projector), not proved",
            "structure: proved on the C02 structural model under well-formedness and the label invariant "
            "(Ptn.C06.two_site_update_structure, tdvp_step_structure: root, identifiers, parents kept, the lower node "
            "becomes the first child of the upper one, every node keeps exactly its open axes for any truncated bond; "
@@ -219,6 +223,11 @@ def run_impl(ctx, case):
                 probs.append(f"step {step}: energy drift {abs(e - e_prev):.2e} (|H| |psi|^2 = "
                              f"{np.linalg.norm(Hm) * nrm0 ** 2:.3g})")
             v_prev, e_prev = v, e
+    if not probs and algo.state.orthogonality_center_id in algo.state.nodes:
+        # value level: hypotheses (index-form isometry toward the centre on every node) and conclusion (environment of the
+        # centre = identity) of Ptn.Ein.environment_is_identity on the state the algorithm holds
+        probs += c06.env_problems(ctx, algo.state, algo.state.orthogonality_center_id,
+                                  1e-10 if tf == 1.0 else 1e-8 * tf, padded_ok=True)
     if probs:
         ctx.oracle_fail(case, "two-site: " + "; ".join(probs[:4]))
         return None
